@@ -302,9 +302,26 @@ func TestC13DH(t *testing.T) {
 			g = rapid.IntRange(-1, 9).Draw(t, "g")
 		}
 		want := c13DHOracle(g, p)
-		err := crypto.CheckDH(g, p)
+		// the caller's big.Int has a history in a third of the cases: the same
+		// object held a published safe prime that was just checked (and
+		// accepted) and is then overwritten in place with this case's value
+		arg := p
+		reused := rapid.IntRange(0, 2).Draw(t, "reusedBigInt") == 0
+		if reused {
+			prev := pick(t, "previousValue", safeGroups())
+			arg = new(big.Int).Set(prev.P)
+			if err := crypto.CheckDH(4, arg); err != nil {
+				t.Fatalf("CheckDH(g=4, %s): %v", prev.Name, err)
+			}
+			arg.Set(p)
+			class += "+reused-big.Int"
+		}
+		err := crypto.CheckDH(g, arg)
 		if (err == nil) != want {
-			t.Fatalf("CheckDH(g=%d, %s [%d bits]): err=%v, want accept=%v", g, name, p.BitLen(), err, want)
+			t.Fatalf("CheckDH(g=%d, %s [%d bits], big.Int object used before for an accepted prime: %v): err=%v, want accept=%v", g, name, p.BitLen(), reused, err, want)
+		}
+		if arg.Cmp(p) != 0 {
+			t.Fatalf("CheckDH changed its argument")
 		}
 		nontrivial := p.BitLen() == 2048 && g >= 2 && g <= 7
 		st.Case(fmt.Sprintf("%s/%d/%x", name, g, trunc24(p.Bytes())), nontrivial, fmt.Sprintf("%s g=%d accept=%v", name, g, want),
